@@ -39,6 +39,9 @@ def main(args):
         r = props_misc.mc_gencache(ctx, "accumulate")
         print("negative control MC_GenCache accumulate :", r.violated)
         ok &= r.violated == "CacheCoherent"
+        r = props_misc.mc_gencache(ctx, "retire", sigmode="placement")
+        print("negative control MC_GenCache placement-only cache index :", r.violated)
+        ok &= r.violated == "CacheCoherent"
         props_search.mc_search(ctx)
         print("negative control MC_Search window key :", ctx.extra.get("design_level"))
         # 3 ---------------------------------------------------------------
